@@ -549,7 +549,7 @@ def ew_fork(rng, idx, variant=None):
         outs = [c]
     elif other == "npu2":
         c = custom(b, [a])
-        d = b.binary(rng.choice(["ADD", "SUB", "MUL"]), c, src) if rank == 4 or True else c
+        d = b.binary(rng.choice(["ADD", "SUB", "MUL"]), c, src)
         outs = [d]
     else:
         # the shared tensor is itself a subgraph output (only possible for a CPU-produced tensor; for a graph input this
